@@ -3463,8 +3463,11 @@ func (a Dimensions) Normalize() (time.Duration, []string) {
 	for _, dim := range a {
 		switch expr := dim.Expr.(type) {
 		case *Call:
-			lit, _ := expr.Args[0].(*DurationLiteral)
-			dur = lit.Val
+			if len(expr.Args) > 0 {
+				if lit, ok := expr.Args[0].(*DurationLiteral); ok {
+					dur = lit.Val
+				}
+			}
 		case *VarRef:
 			tags = append(tags, expr.Val)
 		}
